@@ -7,14 +7,15 @@ From RB Require Import Base.Prelude Sig.Types Sig.Validator Wire.Bytes Wire.Alig
   Wire.MarshalEncodable Wire.MarshalAccept.
 
 (* hypotheses of C02_typed_accepts / marshal_t_accepts hold for the nested example value ... *)
-Example ex_accept_hyps_t : typed ex_val /\ leaves_ok ex_val = true /\ arrays_within false (len (mbuf ex_ctx)) ex_val = true
+Example ex_accept_hyps_t : typed ex_val /\ leaves_ok ex_val = true /\ variant_sigs_ok ex_val = true
+                           /\ arrays_within false (len (mbuf ex_ctx)) ex_val = true
                            /\ arrays_within true (len (mbuf ex_ctx)) ex_val = true.
 Proof. split; [exists ex_ty; reflexivity|]. vm_compute. auto. Qed.
 (* ... so the theorem applies, and the model indeed computes Ok *)
 Example ex_accept_t : forall be, snd (marshal_t be ex_val ex_ctx) = true.
 Proof.
-  intros be. destruct ex_accept_hyps_t as (Ht & Hl & Hle & Hbe).
-  apply marshal_t_accepts; [exact Ht|exact Hl|]. destruct be; assumption.
+  intros be. destruct ex_accept_hyps_t as (Ht & Hl & Hv & Hle & Hbe).
+  apply marshal_t_accepts; [exact Ht|exact Hl|exact Hv|]. destruct be; assumption.
 Qed.
 Example ex_accept_t_computed : snd (marshal_t false ex_val ex_ctx) = true /\ snd (marshal_t true ex_val ex_ctx) = true.
 Proof. vm_compute. auto. Qed.
@@ -25,7 +26,8 @@ Definition ex_bad : val :=
             VArray (TBase BUint64) [VBase BUint64 1]; VBase BUnixFd 0 ].
 Example ex_exactly_t :
   typed ex_bad /\ leaves_ok ex_bad = false /\ arrays_within false 3 ex_bad = true /\ snd (marshal_t false ex_bad ex_ctx) = false
-  /\ (snd (marshal_t false ex_val ex_ctx) = true <-> leaves_ok ex_val = true /\ arrays_within false (len (mbuf ex_ctx)) ex_val = true).
+  /\ (snd (marshal_t false ex_val ex_ctx) = true
+      <-> leaves_ok ex_val = true /\ variant_sigs_ok ex_val = true /\ arrays_within false (len (mbuf ex_ctx)) ex_val = true).
 Proof.
   split; [exists ex_ty; reflexivity|]. split; [reflexivity|]. split; [reflexivity|]. split; [reflexivity|].
   apply marshal_t_exactly. exists ex_ty. reflexivity.
@@ -45,14 +47,14 @@ Qed.
 Example ex_depth_counter : snd (marshal_p false 61 ex_val ex_ctx) = true /\ snd (marshal_p false 62 ex_val ex_ctx) = false.
 Proof. vm_compute. auto. Qed.
 
-(* C02_param_exactly: the two conditions only the Param API has.
-   (1) a variant whose printed signature does not validate: "()" - the typed model writes it, the Param API refuses;
-   (2) 65 nested structs: the typed API counts no nesting, the Param API stops at 64 *)
+(* the variant signature condition, now common to both APIs (typed: since fix ef1b771; the old typed arm is
+   History/TypedVariantOld.v): a variant whose printed signature does not validate - "()" - is refused by both.
+   The nesting counter is the one condition only the Param API has: 65 nested structs *)
 Definition ex_unit_variant : val := VVariant (TStruct []) (VStruct []).
-Example ex_exactly_p_sig :
+Example ex_exactly_sig :
   typed ex_unit_variant /\ leaves_ok ex_unit_variant = true /\ variant_sigs_ok ex_unit_variant = false
   /\ nest_ok 0 ex_unit_variant = true /\ arrays_within false 3 ex_unit_variant = true
-  /\ snd (marshal_t false ex_unit_variant ex_ctx) = true /\ snd (marshal_p false 0 ex_unit_variant ex_ctx) = false.
+  /\ marshal_t false ex_unit_variant ex_ctx = (ex_ctx, false) /\ marshal_p false 0 ex_unit_variant ex_ctx = (ex_ctx, false).
 Proof. split; [exists TVariant; reflexivity|]. vm_compute. repeat split. Qed.
 Example ex_exactly_p_depth :
   let v := nest_struct 65 (VBase BByte 7) in
